@@ -166,6 +166,7 @@ type Obligation struct {
 	ModelOf []ModelVar // values to read back from a model
 	Bounded string     // non-empty: bounded stand-in label
 	Parts   []clausePart // conjuncts (diagnostics only)
+	Extra   []string     // assumptions local to this obligation (instances on its skolem constants)
 }
 
 type ModelVar struct {
@@ -187,6 +188,7 @@ type Script struct {
 	mathInts  bool
 	nativeStr bool // strings are SMT-LIB strings (requires mathematical integers)
 	axioms    []string // global quantified axioms (always included)
+	onAssume  func(text string)
 }
 
 func newScript(mathInts bool) *Script {
@@ -237,6 +239,9 @@ func (s *Script) assume(t Term) {
 		return
 	}
 	s.lines = append(s.lines, scriptLine{lkAssume, "", fmt.Sprintf("(assert %s)", t.S)})
+	if s.onAssume != nil {
+		s.onAssume(t.S)
+	}
 }
 
 func (s *Script) rawLine(text string) {
@@ -418,6 +423,9 @@ func (s *Script) query(o *Obligation, wantModel bool) string {
 		}
 	}
 	addRefs(o.Goal.S)
+	for _, e := range o.Extra {
+		addRefs(e)
+	}
 	for _, mv := range o.ModelOf {
 		addRefs(mv.Term.S)
 	}
@@ -428,12 +436,25 @@ func (s *Script) query(o *Obligation, wantModel bool) string {
 			addRefs(d)
 		}
 	}
+	quantDefs := map[string]bool{}
 	for i := 0; i < o.Prefix; i++ {
 		l := s.lines[i]
 		if l.kind == lkDefine && !needed[l.name] {
 			continue
 		}
+		if o.Cover && l.kind == lkDefine && (strings.Contains(l.text, "(forall ") || strings.Contains(l.text, "(exists ") || mentionsAny(l.text, quantDefs)) {
+			quantDefs[l.name] = true
+		}
+		if o.Cover && l.kind == lkAssume && (strings.Contains(l.text, "(forall ") || strings.Contains(l.text, "(exists ") || mentionsAny(l.text, quantDefs)) {
+			// reachability checks are made without the quantified assumptions (solvers answer
+			// "unknown" on satisfiable quantified problems); documented as a weaker vacuity guard
+			continue
+		}
 		b.WriteString(l.text)
+		b.WriteString("\n")
+	}
+	for _, e := range o.Extra {
+		b.WriteString(e)
 		b.WriteString("\n")
 	}
 	if o.Cover {
@@ -474,3 +495,15 @@ func smtStringLit(x string) string {
 }
 
 var nativeStrFuns = []string{"strlen", "str_concat", "str_lt", "str_at", "str_sub", "pf_strings.HasPrefix", "pf_strings.HasSuffix", "pf_strings.Contains", "pf_strings.TrimSuffix", "pf_strings.TrimPrefix"}
+
+func mentionsAny(text string, names map[string]bool) bool {
+	if len(names) == 0 {
+		return false
+	}
+	for _, tok := range tokens(text) {
+		if names[tok] {
+			return true
+		}
+	}
+	return false
+}
